@@ -39,14 +39,14 @@ CHECKS["C02"] = (
 
 CHECKS["C09"] = (
     "bounded symbolic execution (CrossHair+z3) over a symbolic reference DAG, generate flags, missing reference and document permutation; real load paths + conversion compared with the canonical order",
-    "K=4 (quick) / 5 (thorough) documents; every reference DAG over them, every generate-flag combination, an optional missing reference, every permutation, three load paths (from_dicts, from_yaml, merge at every split). Oracle: referenced rules precede referrers in SigmaCollection.rules, identical per-rule results and query multiset as the canonical order, expected number of emitted queries, SigmaRuleNotFoundError at load for a missing reference.",
+    "K=4 (quick) / 5 (thorough) documents; every reference DAG over them, every generate-flag combination, an optional missing reference, every permutation, three load paths (from_dicts, from_yaml, merge at every split). Oracle: referenced rules precede referrers in SigmaCollection.rules, identical per-rule results and query multiset as the canonical order, expected number of emitted queries, SigmaRuleNotFoundError at load for a missing reference. References only in an extended condition (EXT=1); load_ruleset over two real files (PATH=3); an integer instead of a name as dangling reference (INTREF=1).",
     TB,
     "5.C09",
 )
 
 CHECKS["C07"] = (
     "bounded symbolic execution (CrossHair+z3): document mutations chosen by symbolic selectors (path x operation x replacement value of every YAML type) and symbolic strings in scalar fields, loaded in strict and collecting mode",
-    "Every single mutation (delete / replace by 17 values of every YAML type / non-string key) at every key path of five base documents (rule, correlation, filter, 4-document collection with global/repeat actions, rule with a pre-existing fault) and symbolic strings (len <= 1..3) in 13 scalar fields. Oracle: only SigmaError escapes in strict mode, nothing escapes in collecting mode, errors non-empty iff strict raises, first collected == raised.",
+    "Every single mutation (delete / replace by 17 values of every YAML type / non-string key) at every key path of five base documents (rule, correlation, filter, 4-document collection with global/repeat actions, rule with a pre-existing fault) and symbolic strings (len <= 1..3) in 13 scalar fields. Oracle: only SigmaError escapes in strict mode, nothing escapes in collecting mode, errors non-empty iff strict raises, first collected == raised. Also: a collection in which filters are applied while loading (6th base document); all sequences of 1..3 documents out of 10 valid / faulty kinds (error order); structured date texts (5 spellings x 4 years x 6 months x 7 days) in rules, filters and correlation rules.",
     TB,
     "5.C07",
 )
@@ -60,19 +60,19 @@ CHECKS["C01"] = (
 
 CHECKS["C08"] = (
     "bounded symbolic execution (CrossHair+z3) over symbolic rule kinds per collection position and the collect_errors flag; one shared backend/pipeline vs fresh per-rule conversions of the real Backend.convert",
-    "3-rule collections, each rule of one of 15 kinds (ok with 1/2 conditions, failing in the pipeline / with an unresolved placeholder / with a value the backend rejects / with a missing detection / inside negated rendering, output disabled, rules sharing condition text and field names, state-setting marker rule, unmapped / target field names), collect_errors on/off, 4 backend+pipeline set-ups. Oracle: output == concatenation of the stand-alone results in order, exactly one (rule, error) per failing rule, first error raised without collection.",
+    "3-rule collections, each rule of one of 15 kinds (ok with 1/2 conditions, failing in the pipeline / with an unresolved placeholder / with a value the backend rejects / with a missing detection / inside negated rendering, output disabled, rules sharing condition text and field names, state-setting marker rule, unmapped / target field names), collect_errors on/off, 4 backend+pipeline set-ups. Oracle: output == concatenation of the stand-alone results in order, exactly one (rule, error) per failing rule, first error raised without collection. 17 rule kinds incl. a null keyword; [A, correlation over A, B] collections with failing A / failing correlation rule / generate on/off / collect on/off; a set-up whose pipeline sets and extends the rule's field list.",
     TB,
     "5.C08",
 )
 CHECKS["C14"] = (
     "bounded symbolic execution (CrossHair+z3) over symbolic priorities / spec-list arrangements / bracketings / stage configurations; composed pipelines compared with one pipeline defined with the concatenated items, by structure and by converting probe rules",
-    "Resolver: 4 named pipelines, priorities 0..1 (quick) / 0..2 (thorough), all 64 ordered spec lists, resolved once or twice. Addition: 10 bracketing/history variants (incl. a post-processing-only operand reused in a later sum while the first backend keeps converting) x 4 probe shapes. Backend stages: backend/user/output-format pipelines present or absent x output format omitted/default/alt x 1..2 rules x 1..2 conditions. Order is observed through order-sensitive marker items (field suffix, query embedding, output concatenation).",
+    "Resolver: 4 named pipelines, priorities 0..1 (quick) / 0..2 (thorough), all 64 ordered spec lists, resolved once or twice. Addition: 10 bracketing/history variants (incl. a post-processing-only operand reused in a later sum while the first backend keeps converting) x 4 probe shapes. Backend stages: backend/user/output-format pipelines present or absent x output format omitted/default/alt x 1..2 rules x 1..2 conditions. Order is observed through order-sensitive marker items (field suffix, query embedding, output concatenation). Pipelines without transformation items (NOITEMS=1) and with equal declared names (SAMENAME=1); convert()/convert_rule() with one output format followed by convert_rule() with another.",
     TB,
     "5.C14",
 )
 CHECKS["C15"] = (
     "bounded symbolic execution (CrossHair+z3) over symbolic operation histories on shared backend/pipeline/cache state followed by a probe conversion, compared with a fresh set-up",
-    "All histories of <= 3 (quick) / 4 (thorough) operations out of 10 kinds (load, convert collection, convert single rule, init pipeline, second backend with own / with the SAME pipeline object, conversions failing in the pipeline / in conversion / inside negated rendering) x 6 probe rules x 2 entry points (convert, convert_rule) x 3 set-ups; also asserts the backend class templates are unchanged after every history.",
+    "All histories of <= 3 (quick) / 4 (thorough) operations out of 10 kinds (load, convert collection, convert single rule, init pipeline, second backend with own / with the SAME pipeline object, conversions failing in the pipeline / in conversion / inside negated rendering) x 6 probe rules x 2 entry points (convert, convert_rule) x 3 set-ups; also asserts the backend class templates are unchanged after every history. Further set-ups: query envelope reading the pipeline state with class-level defaults; pipeline that sets / extends / renders the rule's field list; external-source placeholder pipeline.",
     TB,
     "5.C15",
 )
@@ -86,21 +86,21 @@ CHECKS["C17"] = (
 
 CHECKS["C03"] = (
     "bounded symbolic execution (CrossHair+z3) over symbolic plain values (character selectors / typed values, single or list, field or keyword) and a symbolic selector into a table of modifier chains; real SigmaDetectionItem.from_mapping vs a table-driven reference of the modifier semantics",
-    "Values: every string of length <= 2 (quick) / 3 (thorough) over an 11-character alphabet (wildcards, backslash, percent, dashes and slashes at word/non-word boundaries, space, dot, non-ASCII letter, digit) plus 12 typed / longer values, single or in a 2-element list, with a field or as keyword; chains: all 33 single modifiers and 58 chains of length 2..4, admissible and inadmissible. Oracle: equal abstract values (type, content, wildcards, placeholders, flags), value linking and negation - or a SigmaError and nothing else for an inadmissible chain.",
+    "Values: every string of length <= 2 (quick) / 3 (thorough) over an 11-character alphabet (wildcards, backslash, percent, dashes and slashes at word/non-word boundaries, space, dot, non-ASCII letter, digit) plus 12 typed / longer values, single or in a 2-element list, with a field or as keyword; chains: all 33 single modifiers and 58 chains of length 2..4, admissible and inadmissible. Oracle: equal abstract values (type, content, wildcards, placeholders, flags), value linking and negation - or a SigmaError and nothing else for an inadmissible chain. Typed values include regular expressions ending in an escaped dot + star / escaped dollar sign.",
     TB,
     "5.C03",
 )
 
 CHECKS["C13"] = (
     "CrossHair symbolic execution of the real ProcessingItem gate logic with stub conditions whose outcomes are symbolic booleans (all outcomes decided at once), plus selector families for built-in conditions and applied-so-far scenarios",
-    "Rule / detection-item / field-name gates with 0..2 conditions each, list and map form, default/and/or linking, negation, field-reference path; 22 condition expressions on all three levels; built-in conditions (include/exclude fields plain+regex on a symbolic field name of length <= 3 (quick) / 8 (thorough), match_string, contains_wildcard, is_null, contains_field / contains_detection_item over 8 rule shapes, logsource, tag, rule_attribute); pipelines whose later items are gated on processing_item_applied / processing_state of earlier items (rule, detection item and field level), and reset between rules.",
+    "Rule / detection-item / field-name gates with 0..2 conditions each, list and map form, default/and/or linking, negation, field-reference path; 22 condition expressions on all three levels; built-in conditions (include/exclude fields plain+regex on a symbolic field name of length <= 3 (quick) / 8 (thorough), match_string, contains_wildcard, is_null, contains_field / contains_detection_item over 8 rule shapes, logsource, tag, rule_attribute); pipelines whose later items are gated on processing_item_applied / processing_state of earlier items (rule, detection item and field level), and reset between rules. Numeric rule attributes x 6 operators x 5 values (int and float); per-field applied-item bookkeeping over five mapping kinds; pipeline state across a nested pipeline.",
     TB,
     "5.C13",
 )
 
 CHECKS["C11"] = (
     "CrossHair-explored selector space (log sources, rule list forms, detection names and condition forms on both sides, stacking, draw of the internal prefix with random.choices stubbed) through the real collection loading + conversion; per rule one z3 query decides equivalence of the converted query with (rule) AND (filter over its own detections)",
-    "12 rule name/condition sets x 11 filter name/condition sets (overlapping names, names starting with keywords / digits / underscore, wildcard patterns, parenthesised groups, a name colliding with the drawn prefix) x 1..2 stacked filters x 3 draws; all 3^6 log source combinations x 9 rule-list forms (incl. id in upper case); a bystander rule must stay unchanged; no internal identifier in any query. Thorough: the name/condition/stacking/draw space crossed with 9 category relations x 4 rule-list forms.",
+    "12 rule name/condition sets x 11 filter name/condition sets (overlapping names, names starting with keywords / digits / underscore, wildcard patterns, parenthesised groups, a name colliding with the drawn prefix) x 1..2 stacked filters x 3 draws; all 3^6 log source combinations x 9 rule-list forms (incl. id in upper case); a bystander rule must stay unchanged; no internal identifier in any query. Thorough: the name/condition/stacking/draw space crossed with 9 category relations x 4 rule-list forms. One or two filters shared by TWO rules of a collection (12 x 4 rule sets x 11 filter sets), with and without a field-renaming pipeline, and with the second rule created by the collection action 'repeat'.",
     TB,
     "5.C11",
 )
@@ -114,21 +114,21 @@ CHECKS["C12"] = (
 
 CHECKS["C10"] = (
     "CrossHair-explored selector space of correlation rules through the real collection loading + conversion on a verification backend with delimiter-structured correlation templates; expected query computed element by element from the source documents; extended conditions compared by z3-decided boolean equivalence",
-    "8 correlation types x 1..3 referenced rules (single-condition, two-condition, nested correlation) x group-by variants incl. aliases x generate x field-mapping pipeline x sub-query finalisation x typing templates; 8 types x 6 operators x 5 counts incl. fractions (+percentile incl. 99.9); 7 timespan units x 4 counts x 3 rendering modes and every timespan text of length <= 3/4 over a 12-character alphabet; 18 extended condition expressions x temporal/temporal_ordered x with/without rules list.",
+    "8 correlation types x 1..3 referenced rules (single-condition, two-condition, nested correlation) x group-by variants incl. aliases x generate x field-mapping pipeline x sub-query finalisation x typing templates; 8 types x 6 operators x 5 counts incl. fractions (+percentile incl. 99.9); 7 timespan units x 4 counts x 3 rendering modes and every timespan text of length <= 3/4 over a 12-character alphabet; 18 extended condition expressions x temporal/temporal_ordered x with/without rules list. Field mapping bound to a logsource rule condition (LSC=1); query post-processing that also applies to correlation rules (PPALL=1); fractional counts and percentiles.",
     TB,
     "5.C10",
 )
 
 CHECKS["C16"] = (
     "CrossHair symbolic execution of the capability gates with a symbolic environment value (os.environ stubbed) and selector families for key smuggling / nesting / allowed paths; every dangerous operation (subprocess, open, requests, importlib exec, realpath) is replaced by a recording stub",
-    "Gate functions of file/http/command placeholder and template items on every ASCII environment string of length <= 4 (quick) / 6 (thorough) (symbolic) x caller flag; 10 item kinds (flat, nested in 'nest', template post-processing, template finalizer nested 0..3 levels) x 5 key-injection variants x 4 truthy values x caller opt-in x 12 environment values: a stub is reached only with caller opt-in or env in {1,true}, else SigmaSecurityError, capability flags never come from the document; allowed-path containment for vars files incl. prefix-sharing siblings, '..', symlink escapes (realpath stub) and nested finalizers / source_path default.",
+    "Gate functions of file/http/command placeholder and template items on every ASCII environment string of length <= 4 (quick) / 6 (thorough) (symbolic) x caller flag; 10 item kinds (flat, nested in 'nest', template post-processing, template finalizer nested 0..3 levels) x 5 key-injection variants x 4 truthy values x caller opt-in x 12 environment values: a stub is reached only with caller opt-in or env in {1,true}, else SigmaSecurityError, capability flags never come from the document; allowed-path containment for vars files incl. prefix-sharing siblings, '..', symlink escapes (realpath stub) and nested finalizers / source_path default. Also templates (post-processing / finalizer, no vars file) whose TEXT calls the pipeline loader with the opt-in arguments set.",
     TB + " The stubs stand in for Python audit events (not observable symbolically).",
     "5.C16",
 )
 
 CHECKS["C19"] = (
     "CrossHair-explored selector spaces over detection-name subsets x condition forms, id/title/file assignments, rule and validator orders, exclusion tables; real validators vs an independent reference resolver and equivalence-class oracle",
-    "Reference checks: 63 detection name subsets x 14 condition forms (1..2 conditions): dangling detection iff not referenced by name or matching selector, dangling condition iff a selector matches nothing. Uniqueness: 4 (verbatim-copy) rules with id from 3 values or none, 2 titles, 2 file names x 2 directories: issue groups == equivalence classes. Purity/order/exclusions: all built-in offline validators over 4 rules in all 24 orders x 4 validator orders x before/after conversion x 8 exclusion tables; per-rule issues equal the stand-alone validation of each rule; to_dict() and queries unchanged.",
+    "Reference checks: 63 detection name subsets x 14 condition forms (1..2 conditions): dangling detection iff not referenced by name or matching selector, dangling condition iff a selector matches nothing. Uniqueness: 4 (verbatim-copy) rules with id from 3 values or none, 2 titles, 2 file names x 2 directories: issue groups == equivalence classes. Purity/order/exclusions: all built-in offline validators over 4 rules in all 24 orders x 4 validator orders x before/after conversion x 8 exclusion tables; per-rule issues equal the stand-alone validation of each rule; to_dict() and queries unchanged. One SigmaValidator object used for two runs (before / after conversion) in all 24 rule orders, with exclusions for one rule id configured under two of five spellings.",
     TB,
     "5.C19",
 )
@@ -142,7 +142,7 @@ CHECKS["C20"] = (
 
 CHECKS["C06"] = (
     "CrossHair-explored selector spaces (value text from character selectors x detection shape, metadata variants, transformation x rule shape, correlation / filter variants) through the real from_dict -> to_dict -> from_dict (and YAML) chain; dict forms and verification-backend queries compared",
-    "Detection rules: every value of length <= 2 (quick) / 3 (thorough) over an 8-character alphabet in 18 detection shapes, via dict and via YAML; 16x16 metadata variant pairs; after one of 10 pipeline transformations on 16 rule shapes to_dict() must raise a SigmaError or reload to equal queries; correlation rules: 8 types x aliases x group-by x generate x percentile {0, 90} x extended condition; 4 filter shapes, compared inside a converted collection.",
+    "Detection rules: every value of length <= 2 (quick) / 3 (thorough) over an 8-character alphabet in 18 detection shapes, via dict and via YAML; 16x16 metadata variant pairs; after one of 10 pipeline transformations on 16 rule shapes to_dict() must raise a SigmaError or reload to equal queries; correlation rules: 8 types x aliases x group-by x generate x percentile {0, 90} x extended condition; 4 filter shapes, compared inside a converted collection. After a transformation: 15 transformations (incl. several one-to-many mapped fields, regex, hashes_fields) x 21 rule shapes (incl. encoding modifiers, windash, cased, regular expression with flag, Hashes).",
     TB,
     "5.C06",
 )
